@@ -187,6 +187,7 @@ def missing_target_actions(node: str):
         ("node-file-delete", {"node_name": node, "folder_name": "nofolder", "file_name": "nofile"}),
         ("host-nic-disable", {"node_name": node, "nic_num": 0}),  # falsy but well-formed parameter: interfaces count from 1
         ("host-nic-enable", {"node_name": node, "nic_num": 0}),
+        ("node-application-install", {"node_name": node, "application_name": "no-such-app"}),
     ]
 
 
